@@ -200,6 +200,43 @@ Example C14_explicit_prefix_example :
   get_new_path w_names 0 [slash] (tabs_of 3 w_overlap) [47; 101; 110; 47; 97; 98; 111; 117; 116] [] [] 1 (Some 0%nat) = Ok [47; 102; 114; 47; 97; 45; 112; 114; 111; 112; 111; 115].
 Proof. split; vm_compute; reflexivity. Qed.
 
+(** * match_nested: the locale prefix is tried before the bare path, whatever the table starts with.
+    leptos_router's matcher is not modelled: [ol] (inner table on the rest of the path, per locale) and
+    [od] (inner table on the whole path) are oracle arguments, universally quantified — so the
+    statements hold for every route table, in particular for tables whose first segment is a param,
+    an optional param or a splat (which would happily swallow the locale segment). *)
+Theorem C14_prefix_before_params : forall names f ol od l r,
+  (l < length names)%nat -> name_of names l = f -> nth l ol None = Some r ->
+  (forall j, (j < l)%nat -> name_of names j = f -> nth j ol None = None) ->
+  match_nested_model names (Some f) ol od = Some (Some l, slash :: f, r).
+Proof. exact match_nested_prefix_first. Qed.
+
+(** a locale is reported only for a first segment that is exactly its name, with the rest matched *)
+Theorem C14_match_locale_exact : forall names first ol od l m r,
+  match_nested_model names first ol od = Some (Some l, m, r) ->
+  exists f, first = Some f /\ (l < length names)%nat /\ name_of names l = f /\ nth l ol None = Some r /\ m = slash :: f.
+Proof. exact match_nested_locale_exact. Qed.
+
+(** otherwise (first segment not a locale name, or the rest not matched under it) no locale is
+    reported and the whole path is matched by the inner table *)
+Theorem C14_match_bare : forall names f ol od,
+  (forall k, (k < length names)%nat -> name_of names k = f -> nth k ol None = None) ->
+  match_nested_model names (Some f) ol od = match od with Some r => Some (None, [], r) | None => None end.
+Proof. exact match_nested_bare. Qed.
+
+Theorem C14_match_spec : forall names first ol od,
+  spec_match names first ol od (match_nested_model names first ol od) = true.
+Proof. exact spec_match_model. Qed.
+
+(** trying the bare path first is refuted: table [/, /:slug], path "/fr" — the inner table matches
+    the rest "" under fr and also the whole path as slug=fr *)
+Theorem C14_swapped_refuted :
+  spec_match w_names (Some [102; 114]) [None; Some ([], []); None] (Some ([], [([115; 108; 117; 103], [102; 114])]))
+    (match_nested_swapped w_names (Some [102; 114]) [None; Some ([], []); None] (Some ([], [([115; 108; 117; 103], [102; 114])]))) = false
+  /\ match_nested_model w_names (Some [102; 114]) [None; Some ([], []); None] (Some ([], [([115; 108; 117; 103], [102; 114])]))
+     = Some (Some 1%nat, [47; 102; 114], ([], [])).
+Proof. split; vm_compute; reflexivity. Qed.
+
 (** the algorithms before the repairs (kept as [..._old]) violate the specification on valid inputs:
     "/french/x" read as fr; base path "/foo" not stripped ("/foo/fr/about" -> "/foo/de/fr/about");
     "/english" under the default locale en rewritten to "/fr/glish"; an optional parameter that is
